@@ -20,6 +20,9 @@ CONF = dict(
           'StartNTSKEServerSCION (handleKeyExchangeQUIC) + StartSCIONServer with a QUIC Fetcher and the real SCION client. ke.starget: the real client.MeasureClockOffsetSCION with NTS '
           '(time server in the own AS, empty path; Fetcher over TLS or over QUIC): exchanges naming same host/other port, other host/same port, both, only one, nothing, and re-key '
           'sequences; observed: which UDP socket receives the datagram (underlay destination) AND destination host and port of the SCION/UDP header inside, cookie carried. '
+          'ke.overlap: two or three goroutines call FetchData on ONE Fetcher while the scripted TLS peer holds the first connection in the middle of its message (after 0, 1 or 3 '
+          'cookie records; the message then goes on to its end, to an error record, or breaks off); observed: every call\'s result, the peer\'s exporter values per connection '
+          'in arrival order, VerifData afterwards; oracle: some order of the calls is a history the sequential oracle accepts and leaves what the Fetcher holds; model: the calls serialise, any order. '
           'Every third ke.hist history gives the Fetcher the name "localhost" (listener at 127.0.0.1) for some exchanges: the default server is the connection\'s remote '
           'address, not the configured name. Big acceptable messages (17..64 cookies, unrecognised non-critical bodies up to 60000 bytes, 255-byte server names, > 16 KB) on both transports. ke.quic: the same histories (same case format, 150 per quick run + a truncation sweep + every ALPN list) on a '
           'real Fetcher with QUIC.Enabled against a scripted QUIC/SCION peer (the project\'s scion.ListenQUIC, one AS, empty path; ALPN list per connection attempt, stream '
@@ -59,5 +62,5 @@ CONF = dict(
                  'server/port = last named ones or key-exchange host/123 (over SCION: host of the configured remote address/10123); NTP request goes to that socket with the issued cookie; own server: cookies contain the client\'s keys'),
     timeout_quick=900,
     timeout_thorough=3000,
-    min_cases={'ke.hist': 802, 'ke.own': 3, 'ke.ownq': 3, 'ke.quic': 63, 'ke.starget': 19, 'ke.target': 14},
+    min_cases={'ke.hist': 802, 'ke.overlap': 9, 'ke.own': 3, 'ke.ownq': 3, 'ke.quic': 64, 'ke.starget': 19, 'ke.target': 14},
 )
